@@ -1,6 +1,7 @@
 package worlds
 
 import (
+	"sort"
 	"bytes"
 	"encoding/base64"
 	"fmt"
@@ -147,12 +148,27 @@ func (w *govWorld) badPayload() (*shmsg.Message, string) {
 	}
 	// a repeated address is as invalid with another one in between as next to itself
 	dupList := func(x, y []byte) [][]byte {
-		if c.Bool("duplicate-not-adjacent") {
-			return [][]byte{x, y, x}
+		// 2-4 distinct addresses, one of them (any rank: smallest, middle, largest) repeated, next
+		// to itself or with others in between
+		pool := [][]byte{x, y, simtm.DetKey("dup-filler-1").Addr.Bytes(), simtm.DetKey("dup-filler-2").Addr.Bytes()}
+		if bytes.Equal(x, y) {
+			pool = pool[1:]
 		}
-		return [][]byte{x, x}
+		l := pool[:c.Range(1, len(pool), "dup-list-distinct")]
+		l = append([][]byte{}, l...)
+		sort.Slice(l, func(i, j int) bool { return bytes.Compare(l[i], l[j]) < 0 })
+		which := c.Intn(len(l), "dup-which-rank")
+		if c.Bool("duplicate-not-adjacent") && len(l) >= 2 {
+			// move the chosen one to the front and append its copy at the end
+			d := l[which]
+			rest := append(append([][]byte{}, l[:which]...), l[which+1:]...)
+			return append(append([][]byte{d}, rest...), d)
+		}
+		out := append([][]byte{}, l[:which+1]...)
+		out = append(out, l[which])
+		return append(out, l[which+1:]...)
 	}
-	switch c.Intn(14, "bad-kind") {
+	switch c.Intn(16, "bad-kind") {
 	case 0:
 		return &shmsg.Message{}, "empty message"
 	case 1:
@@ -172,7 +188,11 @@ func (w *govWorld) badPayload() (*shmsg.Message, string) {
 	case 6:
 		return &shmsg.Message{Payload: &shmsg.Message_PolyEval{PolyEval: func() *shmsg.PolyEval {
 			rs := dupList(b, mid)
-			return &shmsg.PolyEval{Eon: eon, Receivers: rs, EncryptedEvals: [][]byte{{1}, {2}, {3}}[:len(rs)]}
+			evs := make([][]byte, len(rs))
+			for i := range evs {
+				evs[i] = []byte{byte(i + 1)}
+			}
+			return &shmsg.PolyEval{Eon: eon, Receivers: rs, EncryptedEvals: evs}
 		}()}}, "poly eval with duplicate receivers"
 	case 7:
 		return &shmsg.Message{Payload: &shmsg.Message_PolyEval{PolyEval: &shmsg.PolyEval{Eon: eon, Receivers: [][]byte{short}, EncryptedEvals: [][]byte{{1}}}}}, "poly eval with short receiver"
@@ -191,6 +211,37 @@ func (w *govWorld) badPayload() (*shmsg.Message, string) {
 		off := ref.OffSubgroupG2(4)
 		enc[c.Intn(len(enc), "off-position")] = off[c.Intn(len(off), "off-point")]
 		return &shmsg.Message{Payload: &shmsg.Message_PolyCommitment{PolyCommitment: &shmsg.PolyCommitment{Eon: eon, Gammas: enc}}}, "poly commitment with a gamma outside G2"
+	case 14, 15:
+		// genuine group elements, wrongly framed: the list elements do not have the length of a
+		// compressed point although their concatenation is a sequence of valid points
+		g := w.gammasOf(1 + c.Intn(2, "gamma-degree"))
+		var all []byte
+		for _, p := range *g {
+			all = append(all, p.Compress()...)
+		}
+		var enc [][]byte
+		switch c.Intn(4, "framing") {
+		case 0: // two points glued into one element
+			enc = [][]byte{all[:192]}
+			if len(all) > 192 {
+				enc = append(enc, all[192:])
+			}
+		case 1: // halves
+			for i := 0; i < len(all); i += 48 {
+				enc = append(enc, all[i:i+48])
+			}
+		case 2: // 95 / 97 split
+			enc = [][]byte{all[:95], all[95:192]}
+			if len(all) > 192 {
+				enc = append(enc, all[192:])
+			}
+		default: // a trailing empty element
+			for i := 0; i < len(all); i += 96 {
+				enc = append(enc, all[i:i+96])
+			}
+			enc = append(enc, []byte{})
+		}
+		return &shmsg.Message{Payload: &shmsg.Message_PolyCommitment{PolyCommitment: &shmsg.PolyCommitment{Eon: eon, Gammas: enc}}}, "poly commitment with wrongly framed gammas"
 	case 10:
 		return &shmsg.Message{Payload: &shmsg.Message_Accusation{Accusation: &shmsg.Accusation{Eon: eon, Accused: dupList(b, mid)}}}, "accusation with duplicate accused"
 	default:
